@@ -11,6 +11,7 @@ the property grants: the marked cells are currently active.
 import Pyiga.Proofs.HierRefine
 import Pyiga.Proofs.HierOrder
 import Pyiga.Proofs.HierTP
+import Pyiga.Proofs.HierTrunc
 
 namespace Pyiga.Props.C04
 open Pyiga.Hier Pyiga.Index
@@ -216,6 +217,51 @@ theorem refined_cells_were_active (kvs : Mesh) (d : Option Nat) (hg : GoodMesh k
   intro lv c hc
   have := (refine_wf kvs hg s s' M M' tr (reachable_wf kvs d hg h) hM hr).2 lv c hc
   rwa [getD_ensureLevels] at this
+
+/-! ## truncation algebra (matrix level) -/
+
+open Pyiga.Hier.Trunc in
+/-- **HB ↔ THB transforms.**  Over any ring, for any number of levels: if every truncation matrix
+`A_k = I - truncate_one_level(k)` has its non-zeros only in rows `≥ nt[k]` and columns `< nt[k]`
+(rows of level `k+1`, columns of levels `≤ k`: the shape `truncate_one_level` builds), then
+`truncate_one_level(k, inverse=True)` is the two-sided inverse of `truncate_one_level(k)` and
+`hb_to_thb()`, `thb_to_hb()` are mutually inverse. -/
+theorem truncation_algebra {R : Type} [Ring R] {N : Nat} (As : List (Matrix (Fin N) (Fin N) R))
+    (hA : ∀ A ∈ As, ∃ a, StrictBlock a A) :
+    (∀ A ∈ As, (1 + A) * (1 - A) = 1 ∧ (1 - A) * (1 + A) = 1) ∧
+    hbToThb As * thbToHb As = 1 ∧ thbToHb As * hbToThb As = 1 := by
+  have hsq : ∀ A ∈ As, A * A = 0 := fun A h => by
+    obtain ⟨a, ha⟩ := hA A h
+    exact sq_zero_of_strictBlock ha
+  exact ⟨fun A h => truncate_inverse_pair (hsq A h), hb_thb_inverse As hsq⟩
+
+open Pyiga.Hier.Trunc in
+example : StrictBlock (R := Int) (N := 3) 2 (fun i j => if i.val = 2 ∧ j.val < 2 then 5 else 0) := by
+  intro i j h
+  by_cases hc : i.val = 2 ∧ j.val < 2
+  · omega
+  · simp [hc] at h
+
+/-! ## clauses stated but not proved in Lean (decided per instance by the harness oracle) -/
+
+/-- the cells (of any level `k ≥ lv`) on which level-`lv` function `f` does not vanish: descendants
+of its support cells -/
+def overlaps (kvs : Mesh) (lv : Nat) (f : Idx) (k : Nat) (c : Idx) : Prop :=
+  lv ≤ k ∧ anc parTp (k - lv) c ∈ supp kvs lv f
+
+/-- histories that only use the default marking (`refine(marked)`, i.e. `truncate=False`) -/
+inductive ReachableDefault (kvs : Mesh) (d : Option Nat) : HSpace → Prop
+  | init : ReachableDefault kvs d (HSpace.init kvs d)
+  | refine {s s' : HSpace} {M M' : Marks} :
+      ReachableDefault kvs d s → MarksActive s.levels M → s.refine M false = .ok (s', M') →
+      ReachableDefault kvs d s'
+
+/-- **admissibility (NOT proved in Lean; decided per history by the harness oracle).**  For a finite
+disparity `d ≥ 1`, after any history of calls with the default marking (`truncate=False`), no active
+function of level `lv` is non-zero on an active cell of level `> lv + d`. -/
+def admissible_full : Prop :=
+  ∀ (kvs : Mesh) (d : Nat), 1 ≤ d → GoodMesh kvs → ∀ s, ReachableDefault kvs (some d) s →
+    ∀ lv f k c, f ∈ (s.level lv).actfun → c ∈ (s.level k).act → overlaps kvs lv f k c → k ≤ lv + d
 
 /-! ## non-vacuity -/
 
